@@ -4,7 +4,7 @@ import shapes, nslgen, gentyped, vmcases, ircoq
 from nslgen import *
 from props import c01
 
-STATIC = ["Model/IR.v", "Model/VM.v", "Model/WfIR.v", "Model/Opt.v", "Proofs/WfIRProofs.v"]
+STATIC = ["Model/IR.v", "Model/VM.v", "Model/WfIR.v", "Model/Opt.v", "Proofs/WfIRProofs.v", "Proofs/OptProofs.v"]
 
 
 def targeted(rng):
@@ -72,6 +72,26 @@ def run(ctx):
         progs.append((m, calls, text, name))
     for (m, calls, text) in c01.gen_programs(ctx, 120 if ctx.tier == "quick" else 3000):
         progs.append((m, calls, text, "random"))
+    # every language feature, not only the scalar core: vector / matrix programs (a forwarded load may feed both operands of a
+    # shuffle, a component-wise operator, an element write, a constructor ...)
+    import genvec
+    vg = genvec.VGen(rng)
+    for name, body, ret, args in (
+            ("vec-store-swizzle", [Decl("float3", "v", None), ES(A(V("v"), V("p"))), Ret(Mem(V("v"), "zx"))], "float2", {"p": [1.5, 2.5, 3.5]}),
+            ("vec-store-swizzle-rep", [Decl("float3", "v", None), ES(A(V("v"), B("+", V("p"), V("p")))), Ret(Mem(V("v"), "yyy"))], "float3", {"p": [1.5, 2.5, 3.5]}),
+            ("vec-store-binop", [Decl("float3", "v", None), ES(A(V("v"), V("p"))), Ret(B("+", V("v"), V("v")))], "float3", {"p": [1.5, 2.5, 3.5]}),
+            ("vec-store-index", [Decl("float3", "v", None), ES(A(V("v"), V("p"))), Ret(Idx(V("v"), I(2)))], "float", {"p": [1.5, 2.5, 3.5]}),
+            ("vec-store-elemwrite", [Decl("float3", "v", None), ES(A(V("v"), V("p"))), ES(A(Idx(V("v"), I(1)), F("9.0"))), Ret(V("v"))], "float3", {"p": [1.5, 2.5, 3.5]}),
+            ("vec-store-swizzlewrite", [Decl("float3", "v", None), ES(A(V("v"), V("p"))), ES(A(Mem(V("v"), "zy"), Mem(V("v"), "xy"))), Ret(V("v"))], "float3", {"p": [1.5, 2.5, 3.5]}),
+            ("vec-store-ctor", [Decl("float3", "v", None), ES(A(V("v"), V("p"))), Ret(Ctor("float4", [V("v"), Idx(V("v"), I(0))]))], "float4", {"p": [1.5, 2.5, 3.5]})):
+        m = Module([Func("f", [Arg("float3", "p")], ret, Block(body), export=True)])
+        text, _ = nslgen.render(m, "canonical", rng)
+        progs.append((m, [{"fn": "f", "args": dict(args), "globals": {}, "read_globals": []}], text, name))
+    for k in range(50 if ctx.tier == "quick" else 1200):
+        vg.o["mats"] = k % 3 != 0
+        m, params, globs, ret = vg.program()
+        text, _ = nslgen.render(m, "canonical", rng)
+        progs.append((m, vg.calls(params, globs, 2), text, "vector"))
     jobs = []
     for (m, calls, text, name) in progs:
         jobs.append(vmcases.job(text, calls, optimize=False))
@@ -107,7 +127,7 @@ def run(ctx):
     ctx.cov["programs"] = len(progs)
     ctx.cov["rule"] = ("a grid of (store, load) adjacency patterns {one pair, chain through two variables, triple chain, store to an argument, pair inside a loop} x the kind of user of the "
                        "forwarded load {return, binary operand, branch predicate, store source, index, call argument, cast, loop condition}, member/global flavours, constant casts to float and to "
-                       "int; plus the C01 generator's random programs. Every program is compiled with optimisation off and on: accept/reject equal, VM results and globals equal on three "
+                       "int; plus the C01 generator's random programs, targeted vector store/load patterns (swizzle, repeated swizzle, component-wise operator, index, element write, swizzle write, constructor after a store) and the C04 generator's vector/matrix programs. Every program is compiled with optimisation off and on: accept/reject equal, VM results and globals equal on three "
                        "inputs; inside Coq the optimised IR is compared with the optimiser model applied to the real unoptimised IR, checked well-formed, and run on the VM model against "
                        "the reference semantics. Every program is distinct; all contain at least one store or cast and are counted non-trivial.")
     ctx.cov["samples"] = [{"name": n, "source": t[:300]} for t, c, r, n in meta[:3]]
